@@ -312,8 +312,18 @@ def gen(stage):
     t += "def kZeroCodelen : E := %s\n\n" % _fmt_lit(kzero[0])
     t += "/-- the code length `%s`  -- test_all_Fisher.py:%d -/\n" % (src(cls[0].value), cls[0].lineno)
     t += "def codelenExpr : E := %s\n" % _strip(codelen)
-    t += alias_table(tree, fn)
     t += extract.footer("Codelen")
+    return t
+
+
+@extract.extractor("FisherAlias")
+def gen_alias(stage):
+    """Generated/FisherAlias.lean (C07c): a table of its own, so that it is regenerated also where the expression extraction above fails"""
+    tree = extract._parse(stage, REL)
+    cp = extract.find_def(tree, "convert_params")
+    t = extract.header("FisherAlias", [REL + ":main", REL + ":convert_params"])
+    t += alias_table(tree, cp)
+    t += extract.footer("FisherAlias")
     return t
 
 
